@@ -51,3 +51,24 @@ size_t ctl_clean_while(const uint8_t *src, uint64_t *values, size_t maxCount) {
     return d;
 }
 size_t ctl_clean_forward(const uint8_t *src, uint64_t *values, size_t maxCount) { return ctl_clean_guard(src, values, maxCount); }
+
+/* ---- input side (C14) ---- */
+size_t ctl_rd_unused_len(const uint8_t *src, size_t len, uint64_t *out) { (void)len; uint64_t n = src[0]; for (size_t i = 0; i < n; i++) out[i] = src[1 + i]; return n; }
+size_t ctl_rd_check_after(const uint8_t *src, size_t len, uint64_t *out) {
+    const uint8_t *p = src, *end = src + len; uint64_t v;
+    size_t w = rd(p, &v) + (size_t)p[1];        /* reads p[0], p[1] before the test */
+    if (p + w > end) return 0;
+    *out = v; return w;
+}
+size_t ctl_rd_clean(const uint8_t *src, size_t len, uint64_t *out) {
+    if (len < 2) return 0;
+    uint64_t n = src[0];
+    if (n + 1 > len) return 0;
+    for (size_t i = 0; i < n; i++) out[i] = src[1 + i];
+    return n;
+}
+size_t ctl_rd_clean_end(const uint8_t *src, size_t len, uint64_t *out) {
+    const uint8_t *p = src, *end = src + len; size_t k = 0;
+    while (p < end) { out[k++] = *p; p++; }
+    return k;
+}
